@@ -657,4 +657,162 @@ theorem capture_read (v : Spec.Containers.Variant) (pkts : List (Nat × Bytes))
 
 end
 
+/-! ### from the sender's description of the capture to the output file -/
+section
+open TLX.Export TLX.Spec.FrameBuild TLX.Spec.TlsCapture TLX.Props.C12Dissect
+open TLX.Cipher TLX.RecordLayer TLX.Spec.TlsSender TLX.Props.C01 TLX.Lemmas.Pipeline TLX.Spec.TlsConnection
+open TLX.Lemmas.Capstone TLX.Props.C01Pipeline TLX.Spec.TlsFraming TLX.Props.C01Capstone
+
+/-- the capture, seen from the sender's side, delivers both byte streams in order: per direction the (sequence number,
+    data) pairs of the connection's segments with data are an in-order delivery — any cut, exact duplicates, any ISN — of
+    the stream, which is shorter than 2^31 -/
+def WiresInOrder (evs : List CEv) (streams : Bool → Bytes) : Prop :=
+  ∀ d, (∃ isn, InOrder isn (streams d) (dirWires d evs)) ∧ (streams d).length ≤ 2 ^ 31
+
+/-- what the described capture gives the file-level theorems: the flow's packets, a candidate first packet, the session's
+    server = the connection's server, and `DeliveredInOrder` from the sender-side `WiresInOrder` -/
+theorem described_session (fl : Flow) (hne : clientEp fl ≠ serverEp fl) (evs : List CEv) (hd : Described fl evs)
+    (o : Opts) (hc : o.checksumTest = false) (hsp : o.ports.contains (fl.serverPort : Int) = true)
+    (hcp : o.ports.contains (fl.clientPort : Int) = false) (p0 : Pkt) (rest : List Pkt)
+    (hfp : flowPkts fl 0 evs = p0 :: rest) :
+    (tcpView o (itemsFrom 0 (evs.map CEv.cap))).filter (sameFlow (refPkt fl)) = p0 :: rest ∧
+    candidate o p0 = true ∧
+    (sessionOf (evs.map CEv.cap) o p0 rest).server = serverEp fl ∧
+    (sessionOf (evs.map CEv.cap) o p0 rest).client = clientEp fl ∧
+    ∀ streams, WiresInOrder evs streams →
+      DeliveredInOrder (capInfo (evs.map CEv.cap)) (sessionOf (evs.map CEv.cap) o p0 rest) streams := by
+  have hF := flow_filter fl o hc evs hd 0
+  rw [hfp] at hF
+  obtain ⟨d, pl, tag, hp0⟩ := flowPkts_shape fl evs 0 p0 (by rw [hfp]; simp)
+  have hr := roles_of_flow fl o.ports hsp hcp d pl true tag o rfl
+  simp only at hr
+  rw [← hp0] at hr
+  obtain ⟨hroles, hcand⟩ := hr
+  have hsrv : (sessionOf (evs.map CEv.cap) o p0 rest).server = serverEp fl := by
+    simp only [sessionOf]; exact congrArg Prod.fst hroles
+  have hcli : (sessionOf (evs.map CEv.cap) o p0 rest).client = clientEp fl := by
+    simp only [sessionOf]; exact congrArg Prod.snd hroles
+  refine ⟨hF, hcand, hsrv, hcli, ?_⟩
+  intro streams hw dir
+  obtain ⟨⟨isn, hio⟩, hl⟩ := hw dir
+  refine ⟨⟨isn, ?_⟩, hl⟩
+  rw [hsrv]
+  have hpk : (sessionOf (evs.map CEv.cap) o p0 rest).pkts = flowPkts fl 0 evs := by rw [hfp]; rfl
+  rw [hpk, dirSegs_flow fl hne dir evs hd 0 (capInfo (evs.map CEv.cap)) (fun tag _ => rfl)]
+  exact hio
+
+/-- **C01 from file to file for a capture DESCRIBED FROM THE SENDER'S SIDE, SSL 3.0 – TLS 1.2.** The capture file is the
+    independent encoder's bytes (any pcapng variant, libpcap µs / ns) of: the connection's segments — any well-formed
+    Ethernet / IPv4-or-IPv6 / TCP frames between the flow's endpoints (`Spec.TlsCapture.IsSeg`), delivering each
+    direction's record stream in order (`WiresInOrder`: any cut, duplicates, any ISN) — interleaved with ARBITRARY
+    foreign packets (`Foreign`). Then the run does not stop at the options or in the read loop, and unless scapy / dpkt
+    refuse a frame in the write loop, the output file `Exact`ly contains the conversation: the tool's own reader and the
+    independent frame parser read back a contiguous block of frames that are `frames` addressed for the session, and
+    `Spec.reassemble frames = (client plaintext, server plaintext)`. -/
+theorem tls12_capture_exact (mask : Quic.Dissect.MaskFn) (H : Crypto.Prims) (P : Prims) (L : SealLaws P)
+    -- the capture file: bytes written by the independent encoder in ANY container variant, holding the described packets
+    (fl : Flow) (hne : clientEp fl ≠ serverEp fl) (evs : List CEv) (hdesc : Described fl evs)
+    (hnot1 : ∀ e ∈ evs.map CEv.cap, Ingest.isMinusOne e.t = false)
+    (cv : Spec.Containers.Variant) (cevs : List Spec.Containers.Ev) (hcwf : cv.WF cevs)
+    (hitems : cevs.filterMap (Spec.Containers.scale cv) = (evs.map CEv.cap).map CapEv.item)
+    -- the options: no `-c`, no `-a`; the server port is a server port, the client port is not
+    (args : Args) (keyFile : Option Keylog.Str)
+    (hnoc : args.checksumTest = false) (hmeta : args.metadata = false)
+    (pm : List (Int × Int)) (ports : List Int)
+    (hpm : Options.getPortMap Options.Src.bare args.mArg = .ok pm)
+    (hports : Options.serverPorts Options.Src.builtin Options.Src.pDefault args.pArg = .ok ports)
+    (hsp : ports.contains (fl.serverPort : Int) = true) (hcp : ports.contains (fl.clientPort : Int) = false)
+    (p0 : Pkt) (rest : List Pkt) (hfp : flowPkts fl 0 evs = p0 :: rest)
+    -- the connection as sent (hypotheses of `tls12_connection_exact`, for the session object and the key-log file)
+    (t : Transcript) (hch : t.ch.WellFormed) (hsh : t.sh.WellFormed) (hrc : t.rvC.length = 2) (hrs : t.rvS.length = 2)
+    (hv : t.ver.length = 2) (hcomp : t.sh.compressionMethod = 0)
+    (v : Session.Ver) (hvne : v ≠ .tls13) (hneg : Negotiated t.rvS t.sh v)
+    (ps : CipherSuite.Params) (hres : CipherSuite.resolve (Bytes.beNat t.sh.cipherSuite) = some ps)
+    (a : Pipeline.SuiteArgs) (hargs : Pipeline.suiteArgs ps = some a)
+    (fk : Keylog.Key) (fks : List Keylog.Key)
+    (hfound : (Keylog.findSessionSecrets ((fileKeysOf keyFile).getD []) (Pipeline.natsOfBytes t.ch.random)).filter
+        (fun k => k.label == Keylog.s_CLIENT_RANDOM || k.label == Keylog.s_RSA) = fk :: fks)
+    (secrets : List KeySchedule.Secret) (hsec : Pipeline.secretsOf false (fk :: fks) = some secrets)
+    (k : KeySchedule.Keys6)
+    (hgen : KeySchedule.generateKeys H (Pipeline.ksVersion v) a.ks secrets t.ch.random t.sh.random
+      = .ok (some (.legacy k)))
+    (cls : CipherClass)
+    (hcls : classOf a.bulk (Pipeline.rlVersion v)
+      (Session.extGet ((t.sh.extensions.getD []).map extPair) [0x00, 0x16]).isSome a.tagLen = some cls)
+    (hmac : 0 < (KeySchedule.macSuite H a.ks.mac).outLen)
+    (hck : KeyMatOk cls k.clientKey k.clientIv) (hsk : KeyMatOk cls k.serverKey k.serverIv)
+    (hsc : Script12 t.cEvs) (hss : Script12 t.sEvs)
+    (hokc : ∀ e ∈ t.cEvs, EvOk1 cls (KeySchedule.macSuite H a.ks.mac).outLen e)
+    (hoks : ∀ e ∈ t.sEvs, EvOk1 cls (KeySchedule.macSuite H a.ks.mac).outLen e)
+    (hwr : ∀ d, ∀ r ∈ t.records P L cls (legacySnd k) d, WholeRecord r)
+    (hlen : t.cEvs.length + t.sEvs.length ≤ seqLimit)
+    -- the capture of the connection, sender side; causality on the released records as in the connection capstone
+    (hwires : WiresInOrder evs (t.stream P L cls (legacySnd k)))
+    (hcausal : Causal12 (connRecs (capInfo (evs.map CEv.cap)) (sessionOf (evs.map CEv.cap) (optsOf args ports pm) p0 rest))) :
+    (∃ e, exportFile mask H P args cv.isLegacy keyFile (Spec.Containers.encode cv cevs) = .abort (.write e)) ∨
+    ∃ f, exportFile mask H P args cv.isLegacy keyFile (Spec.Containers.encode cv cevs) = .file f ∧
+      Exact f (sessionOf (evs.map CEv.cap) (optsOf args ports pm) p0 rest)
+        (Spec.TlsConnection.plainOf t.cEvs) (Spec.TlsConnection.plainOf t.sEvs) := by
+  have hread : Container.read cv.isLegacy (Spec.Containers.encode cv cevs) = .ok ((evs.map CEv.cap).map CapEv.item) := by
+    rw [Props.C12.reader_roundtrip cv cevs hcwf, hitems]
+  have hok := capOk_of_described fl evs hdesc hnot1
+  obtain ⟨hF, hcand, _, _, hdelv⟩ := described_session fl hne evs hdesc (optsOf args ports pm) hnoc hsp hcp p0 rest hfp
+  exact tls12_file_exact mask H P L args cv.isLegacy keyFile _ (evs.map CEv.cap) hread hok hnoc hmeta pm ports hpm hports
+    (refPkt fl) p0 rest hF hcand t hch hsh hrc hrs hv hcomp v hvne hneg ps hres a hargs fk fks hfound secrets hsec k hgen
+    cls hcls hmac hck hsk hsc hss hokc hoks hwr hlen (hdelv _ hwires) hcausal
+
+/-- **… TLS 1.3.** -/
+theorem tls13_capture_exact (mask : Quic.Dissect.MaskFn) (H : Crypto.Prims) (P : Prims) (L : SealLaws P)
+    -- the capture file: bytes written by the independent encoder in ANY container variant, holding the described packets
+    (fl : Flow) (hne : clientEp fl ≠ serverEp fl) (evs : List CEv) (hdesc : Described fl evs)
+    (hnot1 : ∀ e ∈ evs.map CEv.cap, Ingest.isMinusOne e.t = false)
+    (cv : Spec.Containers.Variant) (cevs : List Spec.Containers.Ev) (hcwf : cv.WF cevs)
+    (hitems : cevs.filterMap (Spec.Containers.scale cv) = (evs.map CEv.cap).map CapEv.item)
+    -- the options: no `-c`, no `-a`; the server port is a server port, the client port is not
+    (args : Args) (keyFile : Option Keylog.Str)
+    (hnoc : args.checksumTest = false) (hmeta : args.metadata = false)
+    (pm : List (Int × Int)) (ports : List Int)
+    (hpm : Options.getPortMap Options.Src.bare args.mArg = .ok pm)
+    (hports : Options.serverPorts Options.Src.builtin Options.Src.pDefault args.pArg = .ok ports)
+    (hsp : ports.contains (fl.serverPort : Int) = true) (hcp : ports.contains (fl.clientPort : Int) = false)
+    (p0 : Pkt) (rest : List Pkt) (hfp : flowPkts fl 0 evs = p0 :: rest)
+    -- the connection as sent (hypotheses of `tls13_connection_exact`, for the session object and the key-log file)
+    (t : Transcript) (hch : t.ch.WellFormed) (hsh : t.sh.WellFormed) (hrc : t.rvC.length = 2) (hrs : t.rvS.length = 2)
+    (hv : t.ver.length = 2) (hcomp : t.sh.compressionMethod = 0) (hneg : Negotiated t.rvS t.sh .tls13)
+    (ps : CipherSuite.Params) (hres : CipherSuite.resolve (Bytes.beNat t.sh.cipherSuite) = some ps)
+    (a : Pipeline.SuiteArgs) (hargs : Pipeline.suiteArgs ps = some a)
+    (fk : Keylog.Key) (fks : List Keylog.Key)
+    (hfound : Keylog.findSessionSecrets ((fileKeysOf keyFile).getD []) (Pipeline.natsOfBytes t.ch.random) = fk :: fks)
+    (secrets : List KeySchedule.Secret) (hsec : Pipeline.secretsOf true (fk :: fks) = some secrets)
+    (k : KeySchedule.Installed13)
+    (hgen : KeySchedule.generateKeys H .tls13 a.ks secrets t.ch.random t.sh.random = .ok (some (.tls13 k)))
+    (chk chiv cak caiv shk shiv sak saiv : Bytes)
+    (hk : k.clientHsKey = some chk ∧ k.clientHsIv = some chiv ∧ k.clientAppKey = some cak ∧ k.clientAppIv = some caiv ∧
+      k.serverHsKey = some shk ∧ k.serverHsIv = some shiv ∧ k.serverAppKey = some sak ∧ k.serverAppIv = some saiv)
+    (cls : CipherClass)
+    (hcls : classOf a.bulk .tls13
+      (Session.extGet ((t.sh.extensions.getD []).map extPair) [0x00, 0x16]).isSome a.tagLen = some cls)
+    (h1 : KeyMatOk cls chk chiv) (h2 : KeyMatOk cls cak caiv) (h3 : KeyMatOk cls shk shiv) (h4 : KeyMatOk cls sak saiv)
+    (hsc : Script13 t.cEvs) (hss : Script13 t.sEvs)
+    (hokc : ∀ e ∈ t.cEvs, EvOk1 cls (KeySchedule.macSuite H a.ks.mac).outLen e)
+    (hoks : ∀ e ∈ t.sEvs, EvOk1 cls (KeySchedule.macSuite H a.ks.mac).outLen e)
+    (hwr : ∀ d, ∀ r ∈ t.records P L cls ⟨SDir.init chk chiv cak caiv, SDir.init shk shiv sak saiv⟩ d, WholeRecord r)
+    (hlen : budget13 t ≤ seqLimit)
+    -- the capture of the connection, sender side; causality on the released records as in the connection capstone
+    (hwires : WiresInOrder evs (t.stream P L cls ⟨SDir.init chk chiv cak caiv, SDir.init shk shiv sak saiv⟩))
+    (hcausal : Causal13 (connRecs (capInfo (evs.map CEv.cap)) (sessionOf (evs.map CEv.cap) (optsOf args ports pm) p0 rest))) :
+    (∃ e, exportFile mask H P args cv.isLegacy keyFile (Spec.Containers.encode cv cevs) = .abort (.write e)) ∨
+    ∃ f, exportFile mask H P args cv.isLegacy keyFile (Spec.Containers.encode cv cevs) = .file f ∧
+      Exact f (sessionOf (evs.map CEv.cap) (optsOf args ports pm) p0 rest)
+        (Spec.TlsConnection.plainOf t.cEvs) (Spec.TlsConnection.plainOf t.sEvs) := by
+  have hread : Container.read cv.isLegacy (Spec.Containers.encode cv cevs) = .ok ((evs.map CEv.cap).map CapEv.item) := by
+    rw [Props.C12.reader_roundtrip cv cevs hcwf, hitems]
+  have hok := capOk_of_described fl evs hdesc hnot1
+  obtain ⟨hF, hcand, _, _, hdelv⟩ := described_session fl hne evs hdesc (optsOf args ports pm) hnoc hsp hcp p0 rest hfp
+  exact tls13_file_exact mask H P L args cv.isLegacy keyFile _ (evs.map CEv.cap) hread hok hnoc hmeta pm ports hpm hports
+    (refPkt fl) p0 rest hF hcand t hch hsh hrc hrs hv hcomp hneg ps hres a hargs fk fks hfound secrets hsec k hgen
+    chk chiv cak caiv shk shiv sak saiv hk cls hcls h1 h2 h3 h4 hsc hss hokc hoks hwr hlen (hdelv _ hwires) hcausal
+
+end
+
 end TLX.Props.C01File
